@@ -716,7 +716,7 @@ int bufr_descriptor_set_dvalue ( BufrDescriptor *cb , double dval )
       else
          {
          bufr_value_set_double( cb->value, bufr_get_max_double() );
-         sprintf( errmsg, _("Warning: The value %f of descriptor %d is out of range [%f,%f]\n"), 
+         snprintf( errmsg, sizeof(errmsg), _("Warning: The value %f of descriptor %d is out of range [%f,%f]\n"), 
                   dval, cb->descriptor, min, max );
          bufr_print_debug( errmsg );
          }
